@@ -178,6 +178,22 @@ def raw_mat(a):
 
 
 GLUE_OPS = ('solve_left', 'pluq_solve_left', 'kernel', 'echelonize_pluq')
+EXACT_OPS = ('ple', 'pluq', 'ple_russian', 'pluq_russian')
+
+
+def exact_line(cid, line, cfg):
+    """second-phase line for the exact mirrors that depend on the build configuration (cache sizes)"""
+    t = line.split()
+    op = t[1]
+    args = arg_mats(line)
+    try:
+        pq = ' '.join('p %d %s' % (len(a[1]), ' '.join(a[1])) for a in args[1:3])
+        pq = re.sub(r' +', ' ', pq)
+        if op in ('ple', 'pluq'):
+            return '%s.glue %s_exact %s %s %d %d %d' % (cid, op, raw_mat(args[0]), pq, cfg['l1'], cfg['l2'], cfg['l3'])
+        return '%s.glue %s_exact %s %s %s %d' % (cid, op, raw_mat(args[0]), pq, args[3][1], cfg['l2'])
+    except Exception as e:
+        return '%s.glue bad-exact-input %s' % (cid, type(e).__name__)
 
 
 def glue_line(cid, line, fact_main):
@@ -329,6 +345,8 @@ def correspond(build, lines, harness_args=(), env=None, canon=None, model_lines=
                 gl = glue_line(cid, byid0[cid], himpl[cid + '.fact'][0])
                 if gl:
                     chk_lines.append(gl)
+            if main.startswith('ok') and byid0[cid].split(' ', 2)[1] in EXACT_OPS:
+                chk_lines.append(exact_line(cid, byid0[cid], build.cfg))
     hchk = {}
     if chk_lines:
         cr = run_exe(MODEL_EXE, chk_lines)
